@@ -71,7 +71,7 @@ def contact_area3(self: ThreeRollPass) -> float:
 
 @ThreeRollPass.target_cross_section_area
 def target_cross_section_area_from_target_width3(self: ThreeRollPass) -> float:
-    if self.has_value("target_width"):
+    if not self.has_set_or_cached("target_cross_section_filling_ratio") and self.has_value("target_width"):
         target_cross_section = helpers.out_cross_section3(self, self.target_width)
         return target_cross_section.area
 
